@@ -346,7 +346,9 @@ class ExcelModel:
 
             try:
                 context = self.add_book(book)[1]
-                wk, context = self.add_sheet(rng['sheet'], context)
+                wk, context = self.add_sheet(
+                    rng['sheet'].replace("''", "'"), context
+                )  # Sheet titles are spelled with doubled apostrophes.
             except Exception as ex:  # Missing excel file or sheet.
                 log.warning('Error in loading `{}`:\n{}'.format(n_id, ex))
                 Cell(n_id, '=#REF!').compile().add(self.dsp)
